@@ -381,19 +381,24 @@ func (f *flow) Start(ctx context.Context) {
 						}
 						source := f.current.Element()
 
-						current := sequences[0]
 						effectiveFlows := make([]Snapshot, 0)
-
-						flowed := f.handleSequenceFlow(ctx, current, unconditional[0], a.actionTransformer, a.terminate)
-
-						if flowed {
-							effectiveFlows = append(effectiveFlows, Snapshot{sequenceFlow: current, flowId: f.Id()})
-						}
-
-						rest := sequences[1:]
 						flowHandlers := make([]func(ctx context.Context), 0)
-						for i, sequenceFlow := range rest {
-							flowId, flowHandler, flowed := f.handleAdditionalSequenceFlow(ctx, sequenceFlow, unconditional[i+1],
+
+						// The first sequence flow that is effective continues this
+						// flow; every further effective one starts a new flow. (If
+						// this flow only ever tried the first listed sequence flow,
+						// a false condition there would leave it at the node, which
+						// would then be executed once more.)
+						continued := false
+						for i, sequenceFlow := range sequences {
+							if !continued {
+								if f.handleSequenceFlow(ctx, sequenceFlow, unconditional[i], a.actionTransformer, a.terminate) {
+									effectiveFlows = append(effectiveFlows, Snapshot{sequenceFlow: sequenceFlow, flowId: f.Id()})
+									continued = true
+								}
+								continue
+							}
+							flowId, flowHandler, flowed := f.handleAdditionalSequenceFlow(ctx, sequenceFlow, unconditional[i],
 								a.actionTransformer, a.terminate)
 							if flowed {
 								effectiveFlows = append(effectiveFlows, Snapshot{sequenceFlow: sequenceFlow, flowId: flowId})
